@@ -36,6 +36,13 @@ pub struct Case {
     pub victim: Option<u8>,
     /// chunks registered (sequentially, by a set-up client) before the race
     pub initial: Vec<(u8, i8)>,
+    /// per client: how many catalog reads (list_chunks / get_chunks) a second task issues through
+    /// the *same* client object while its mutations run
+    #[serde(default)]
+    pub readers: Vec<u8>,
+    /// the answer of a catalog GET reaches its caller as a separate schedulable event
+    #[serde(default)]
+    pub late_responses: bool,
 }
 
 const NPATHS: u8 = 8;
@@ -163,6 +170,7 @@ pub fn exec(case: &Case) -> Outcome {
             }
         }
         let setup_versions = core.versions().len();
+        core.set_late_responses(case.late_responses);
         core.set_scheduled(true);
 
         // ---- clients ----
@@ -170,9 +178,26 @@ pub fn exec(case: &Case) -> Outcome {
         let victim_done_flag = Arc::new(std::sync::atomic::AtomicBool::new(false));
         let victim_idx = case.victim.map(|v| v as usize % case.clients.len());
         let mut handles = Vec::new();
+        let mut reader_handles = Vec::new();
         for (ci, ops) in case.clients.iter().enumerate() {
             let store = core.node(ci as u32);
-            let client = ObjectStoreMetadataClient::new(store, ObjectStoreMetadataConfig::default());
+            let client = Arc::new(ObjectStoreMetadataClient::new(store, ObjectStoreMetadataConfig::default()));
+            let n_reads = case.readers.get(ci).copied().unwrap_or(0) % 4;
+            if n_reads > 0 {
+                // a reader sharing the client (a query node's catalog look-ups next to its writes)
+                let rc = client.clone();
+                reader_handles.push(tokio::spawn(async move {
+                    for k in 0..n_reads {
+                        if k % 2 == 0 {
+                            let _ = rc.list_chunks().await;
+                        } else {
+                            let _ = rc.get_chunks(cardinalsin::metadata::TimeRange::new(-10 * HOUR, 40 * HOUR)).await;
+                        }
+                    }
+                }));
+            }
+            let shared_with_reader = n_reads > 0;
+            let pause_between_ops = case.late_responses;
             let ops = ops.clone();
             let core2 = core.clone();
             let results = results.clone();
@@ -189,6 +214,10 @@ pub fn exec(case: &Case) -> Outcome {
                 }
                 let _g = SetOnDrop(vflag, is_victim);
                 for (idx, op) in ops.iter().enumerate() {
+                    if idx > 0 && pause_between_ops {
+                        // time passes between two calls of one client: a schedulable gap
+                        let _ = core2.gated(ReqDesc { node: ci as u32, op: OpKind::Pause, path: String::new(), detail: "between-ops".into() }, || async {}).await;
+                    }
                     let from = core2.log_len() as u64;
                     let r = match op {
                         Op::Register { path, lo_h, off, span_h } => {
@@ -208,7 +237,8 @@ pub fn exec(case: &Case) -> Outcome {
                     let to = core2.log_len() as u64;
                     // (d) read-your-writes on the issuing client (served from its own cache: no request)
                     let mut ryw = None;
-                    if r.is_ok() {
+                    // (with a concurrent reader on the same client its cache is not this task's alone)
+                    if r.is_ok() && !shared_with_reader {
                         match op {
                             Op::Register { path, lo_h, off, span_h } => {
                                 let md = meta_for(*path, *lo_h, *off, *span_h);
@@ -296,7 +326,7 @@ pub fn exec(case: &Case) -> Outcome {
             let _ = &core3;
             Choice::Release(pick.id, Decision::Proceed)
         };
-        let mut done = || handles.iter().all(|h| h.is_finished());
+        let mut done = || handles.iter().all(|h| h.is_finished()) && reader_handles.iter().all(|h| h.is_finished());
         let end = drive(&core, &mut done, &mut choose, 4000).await;
         out.count("requests_scheduled", scheduled);
         if end != DriveEnd::Done {
@@ -314,7 +344,17 @@ pub fn exec(case: &Case) -> Outcome {
                 }
             }
         }
+        for h in reader_handles {
+            let _ = h.await;
+        }
         core.set_scheduled(false);
+        core.set_late_responses(false);
+        if case.readers.iter().any(|r| r % 4 > 0) {
+            out.class("reader-shares-a-client-with-a-writer");
+        }
+        if case.late_responses {
+            out.class("late-responses");
+        }
 
         // ---- oracle ----
         let log = core.log();
@@ -442,7 +482,7 @@ fn strategy(t: Tier) -> BoxedStrategy<Case> {
         prop_oneof![2 => Just(None), 1 => (0u8..6).prop_map(Some)],
         prop::collection::vec((0u8..NPATHS, 0i8..20), 0..5),
     )
-        .prop_map(|(clients, schedule, victim, initial)| Case { clients, schedule, victim, initial })
+        .prop_map(|(clients, schedule, victim, initial)| Case { clients, schedule, victim, initial, readers: vec![], late_responses: false })
         .boxed()
 }
 
@@ -450,11 +490,18 @@ pub fn def() -> PropDef {
     PropDef {
         id: "C02",
         level: "exploration",
-        rule: "2-6 ObjectStoreMetadataClients, each 1-4 (thorough 6) ops from {register(8 paths, multi-bucket intervals), delete, complete_compaction, publish_compaction(1-3 sources -> a fresh path, must be refused unless every source is registered at its commit point)}, interleaved at object-store-request granularity by a generated schedule (incl. virtual-time waits and an optional victim that is always overtaken between GET and PUT); 0-4 chunks pre-registered. Non-trivial = at least one conditional PUT on catalog.json was answered with a conflict. Distinct = distinct canonical JSON of (ops, schedule, victim, initial).",
+        rule: "2-6 ObjectStoreMetadataClients, each 1-4 (thorough 6) ops from {register(8 paths, multi-bucket intervals), delete, complete_compaction, publish_compaction(1-3 sources -> a fresh path, must be refused unless every source is registered at its commit point)}, interleaved at object-store-request granularity by a generated schedule (incl. virtual-time waits and an optional victim that is always overtaken between GET and PUT); 0-4 chunks pre-registered; optionally a second task issues 1-3 catalog reads through the same client object while its mutations run, and optionally the answer of every catalog GET reaches its caller as a separate schedulable event (late responses). Non-trivial = at least one conditional PUT on catalog.json was answered with a conflict. Distinct = distinct canonical JSON of (ops, schedule, victim, initial).",
         assumptions: &[
             "SimStore conforms to S3 conditional-write semantics (If-None-Match:* create, If-Match:etag update, strong read-after-write); it mirrors object_store::memory::InMemory",
             "a schedule is a total order of request effects (requests are atomic)",
         ],
-        subs: || vec![Box::new(Sub::<Case> { name: "race", cases: |t| t.scale(400_000, 8), strategy, exec })],
+        subs: || {
+            vec![Box::new(Sub::<Case> {
+                name: "race",
+                cases: |t| t.scale(400_000, 8),
+                strategy: |t| (strategy(t), prop_oneof![2 => Just(vec![]), 1 => prop::collection::vec(0u8..4, 1..4)], prop::bool::weighted(0.3)).prop_map(|(mut c, readers, late)| { c.readers = readers; c.late_responses = late; c }).boxed(),
+                exec,
+            })]
+        },
     }
 }
